@@ -256,7 +256,7 @@ def feedEv (which : Prop3) (mons : Array Mon) (a : Nat) (e : Ev) : Array Mon × 
   let m := mons[a]!
   let (c01, f1) := feed C01.next m.c01 e
   let (c03, f3) := feed C03.next m.c03 e
-  let (c04, f4) := feed (C04.next true a) m.c04 e
+  let (c04, f4) := feed (C04.next a) m.c04 e
   let fails := match which with
     | .c01 => f1.toList | .c03 => f3.toList | .c04 => f4.toList
   (mons.set! a { m with c01, c03, c04 }, fails)
